@@ -52,6 +52,14 @@ def quoter_outputs(prog):
 def split_fn(prog):
     hits = [k for k, f in prog.fns.items() if (f.get("impl") or {}).get("self", "").startswith(SPLIT_TY)
             and f.get("inputs") == ["&str", "bool"]]
+    if len(hits) > 1:
+        # a private stage of the splitter has the same signature: the splitter is the one that is called from outside the type
+        cg = prog.callgraph()
+        outer = [h for h in hits if any(h in cg[k] for k in prog.fns
+                                        if not ((prog.fns[k].get("impl") or {}).get("self") or "").startswith(SPLIT_TY)
+                                        and not ((prog.fns.get(prog.fns[k].get("root") or "") or {}).get("impl") or {}).get("self", "").startswith(SPLIT_TY))]
+        if len(outer) == 1:
+            hits = outer
     if len(hits) != 1:
         raise AnchorError("splitter: SplittedString fn(&str, bool) matched %s" % hits)
     return hits[0]
